@@ -88,8 +88,9 @@ META = {
              "Dispatch (grammar on tokens, ConstCodeOf, SameCodewords).", "DESIGN.md §7 C16"),
     "C17": m("TLC checks bijection/inverse/formula over the whole 8-, 12-, 16-bit types and the agreement of the "
              "two's-complement vector forms; real to_nat/to_int on all 8/16-bit values and on neighbourhoods of 0, MIN, "
-             "MAX and every power of two for wider types are validated by TLC with the vector forms. The exhaustive "
-             "2^32 sweep is out of reach (stated in DESIGN.md).", "DESIGN.md §7 C17"),
+             "MAX and every power of two for wider types are validated by TLC with the vector forms; the 32-bit types "
+             "are swept exhaustively (all 2^32 values each way), the observed function being logged run-length "
+             "encoded and validated segment by segment.", "DESIGN.md §7 C17, §13.5"),
     "C18": m("Byte-level VByte writes/reads (all entry points) on dense, boundary and random values and every "
              "terminated byte string of bounded length are validated by TLC against Codes (bytes, values, lengths, "
              "completeness); the bit-stream VByte codes are validated against the same definitions.", "DESIGN.md §7 C18"),
